@@ -65,6 +65,12 @@ class Ctx:
     # -- findings -----------------------------------------------------------
     def violation(self, what, replay_obj):
         """Record a violation unless it is a listed open known finding."""
+        if getattr(self, "extra_mode", False):
+            # behaviour beyond the listed properties: reported, never an alarm on a property
+            msg = "EXTRA-FINDING: (beyond the listed properties) " + what[:400]
+            log(msg)
+            self.notes.append(msg)
+            return False
         for kf in self.known_findings:
             if kf.get("status") == "open" and kf.get("property") == self.prop and kf_matches(kf, replay_obj):
                 msg = "KNOWN-FINDING: property=%s %s" % (self.prop, kf.get("what", ""))
@@ -303,7 +309,7 @@ def validate_trace(spec, cfg, trace, metadir, timeout=1800, heap="12g"):
 
 SEG_MARKER = {"Trace_Api.tla": '"ev":"Reset"', "Trace_Sink.tla": '"ev":"KNew"', "Trace_File.tla": '"ev":',
               "Trace_Build.tla": '"ev":"TNew"', "Trace_Aut.tla": '"ev":', "Trace_Lev.tla": '"ev":', "Trace_Merge.tla": '"ev":"Run"',
-              "Trace_Mem.tla": '"ev":'}
+              "Trace_Mem.tla": '"ev":', "Trace_Cli.tla": '"ev":'}
 
 
 def segment_bounds(path, d, marker='"ev":"Reset"'):
@@ -356,7 +362,7 @@ def check_trace(ctx, name, spec, cfg, trace, describe=None, max_findings=25, tim
         if len(short) > 700:
             short = short[:700] + "..."
         what = "%s: event %d (%s) is not a behaviour of %s: %s" % (name, d, ev.get("ev"), spec, short)
-        obj = {"scenario": name, "trace_segment": seg, "event_line_in_segment": d - start + 1, "event": slim(ev)}
+        obj = {"scenario": name, "spec": spec, "trace_segment": seg, "event_line_in_segment": d - start + 1, "event": slim(ev)}
         if describe:
             obj["context"] = describe(trace, start, d)
         ctx.violation(what, obj)
